@@ -20,7 +20,7 @@ ASSUMPTIONS = ["byte equality of outputs is required except for the `//`-comment
 
 
 def plan(tier):
-    return {"budget_s": 55 if tier == "quick" else 500, "profiles": ["R"], "min_evaluations": 5000}
+    return {"budget_s": 55 if tier == "quick" else 500, "profiles": ["R"], "min_evaluations": 2000}
 
 
 SASS_ONLY = [
